@@ -162,6 +162,58 @@ class FileTimestamp(Harness):
         return AND(t.timestamp == mtime_link, t.size == size)
 
 
+class RestoreLinkedTile(Harness):
+    """file cache with link_single_color_images: the timestamp of a tile is the mtime of its own directory entry, so
+    every store -- also a refresh that yields the same colour again -- must create that entry anew (link/symlink or a
+    file write at the tile location); otherwise the refreshed tile stays expired and is fetched again and again."""
+    modules = ['mapproxy.cache.path', 'mapproxy.cache.file']
+    functions = ['FileCache.store_tile', 'FileCache._store', 'FileCache._store_single_color_tile']
+
+    @classmethod
+    def build(cls, L, cfg):
+        from props.C05_cachemap import FileCacheOps
+        return FileCacheOps.build.__func__(cls, L, dict(cfg, layout='tc', d1='none'))
+
+    @classmethod
+    def inputs(cls, ctx, cfg):
+        from props.C05_cachemap import FileCacheOps
+        return FileCacheOps.inputs.__func__(cls, ctx, dict(cfg, layout='tc', d1='none'))
+
+    @classmethod
+    def native_inputs(cls, cex):
+        from props.C05_cachemap import FileCacheOps
+        return FileCacheOps.native_inputs(cex)
+
+    @classmethod
+    def prop(cls, ctx, cfg, x, y, z, tape, color=None, single=False):
+        from props.C05_cachemap import FakeTile, ITE_obj, _Src, path_eq, _always
+        cache, ros, f = ctx['cache'], ctx['os'], ctx['f']
+        ros.reset(tape)
+        coord = (x, y, z)
+        expected = cache.tile_location(FakeTile(coord))
+        del ros.events[:]
+        col = tuple(color)
+        f.__dict__['is_single_color_image'] = lambda img: ITE_obj(single, col)
+        cache.store_tile(FakeTile(coord, source=_Src()))
+        created = False
+        written = []
+        for e in ros.events:
+            if e[0] == 'write_atomic':
+                written.append(e[1])
+                if _always(path_eq(e[1], expected)):
+                    created = True
+            if e[0] == 'symlink' and _always(path_eq(e[2], expected)):
+                created = True      # a symbolic link is an inode of its own: lstat reports the time of this store
+            if e[0] == 'link' and _always(path_eq(e[2], expected)):
+                if cfg.get('inode_semantics'):
+                    # a hard link shares inode and mtime with the shared single-colour file: the timestamp is new only
+                    # if that file was written by this very store
+                    created = any(_always(path_eq(w_, e[1])) for w_ in written)
+                else:
+                    created = True
+        return created
+
+
 class StoreTimestamp(Harness):
     """a (re-)stored tile gets the time of the store as its timestamp, whatever timestamp the tile
     object still carries from an earlier load (a refreshed tile must not look stale again)"""
@@ -369,6 +421,10 @@ CANARIES = [
         "            return before_timestamp_from_options(self._refresh_before)",
         "            if self._expire_timestamp is None:\n                self._expire_timestamp = before_timestamp_from_options(self._refresh_before)\n            return self._expire_timestamp")]},
      dict(delta={'hours': 4})),
+    ('existing single-colour link kept on re-store', 'RestoreLinkedTile', {'mapproxy.cache.file': [(
+        "        if os.path.exists(tile_loc) or os.path.islink(tile_loc):\n            os.unlink(tile_loc)\n",
+        "        if os.path.islink(tile_loc):\n            return\n        if os.path.exists(tile_loc):\n            os.unlink(tile_loc)\n")]},
+     dict(link='symlink', op='store_tile')),
     ('file threshold computed once', 'AbsoluteThreshold', {'mapproxy.cache.tile': [(
         "            return before_timestamp_from_options(self._refresh_before)",
         "            if self._expire_timestamp is None:\n                self._expire_timestamp = before_timestamp_from_options(self._refresh_before)\n            return self._expire_timestamp")]},
@@ -390,11 +446,17 @@ def obligations(tier, seed):
     specs.append(spec(MOD, 'AbsoluteThreshold', 'mtime-threshold-follows-file', cfg={}))
     for via in ('store_tile', 'store_tiles'):
         specs.append(spec(MOD, 'StoreTimestamp', 'sqlite-store-records-now/%s' % via, cfg=dict(via=via)))
+    for link in ('symlink', 'hardlink'):
+        specs.append(spec(MOD, 'RestoreLinkedTile', 'restored-tile-gets-a-new-directory-entry/%s' % link, cfg=dict(link=link, op='store_tile'), cost=5))
+    # known finding (documented limitation of hardlink mode): the new entry shares the mtime of the old shared file
+    specs.append(spec(MOD, 'RestoreLinkedTile', 'restored-tile-gets-a-new-timestamp/hardlink', kind='finding', finding_key='C13-hardlink-shared-mtime',
+                      cfg=dict(link='hardlink', op='store_tile', inode_semantics=True), cost=5))
     for via in ('load_tile_metadata', 'load_tile'):
         specs.append(spec(MOD, 'FileTimestamp', 'file-tile-timestamp/%s' % via, cfg=dict(via=via)))
     specs.append(spec(MOD, 'Refresh', 'twin/Refresh', kind='witness', cfg=dict(meta=False, with_threshold=True)))
     specs.append(spec(MOD, 'RelativeThreshold', 'twin/RelativeThreshold', kind='witness', cfg=dict(delta={'hours': 4})))
     specs.append(spec(MOD, 'AbsoluteThreshold', 'twin/AbsoluteThreshold', kind='witness', cfg={}))
+    specs.append(spec(MOD, 'RestoreLinkedTile', 'twin/RestoreLinkedTile', kind='witness', cfg=dict(link='symlink', op='store_tile')))
     for label, h, patches, c in (CANARIES if tier == 'thorough' else CANARIES[:3] + CANARIES[4:]):   # (quick skips one)
         specs.append(spec(MOD, h, 'canary/' + label, kind='canary', cfg=c, patches=patches, cost=5))
     return specs
@@ -411,7 +473,7 @@ META = dict(
                 'request, any expired => exactly one request storing all four tiles; relative thresholds are re-evaluated '
                 'against the clock on every call (threshold = floor(now - delta)); an mtime rule reads the marker file on every '
                 'decision (three successive decisions with three arbitrary modification times).',
-    functions=Refresh.functions + RelativeThreshold.functions + AbsoluteThreshold.functions + FileTimestamp.functions + StoreTimestamp.functions,
+    functions=Refresh.functions + RelativeThreshold.functions + AbsoluteThreshold.functions + RestoreLinkedTile.functions + FileTimestamp.functions + StoreTimestamp.functions,
     bounds='timestamps >= 0, thresholds whole seconds >= 0; single tile and one 2x2 meta tile; one request; clock: two arbitrary '
            'non-decreasing instants',
     outside='the sub-second band ts in (T, T+1) (documented truncation, either behaviour accepted), mktime/strptime (C library; '
